@@ -44,7 +44,12 @@ func (tx *FenceTx) Commit() error {
 		return err
 	}
 
-	return tx.TargetFenceTx.Commit()
+	if err := tx.TargetFenceTx.Commit(); err != nil {
+		return err
+	}
+	// the phase is applied, by this delivery
+	tm.SetFenceApplied(tx.Ctx, true)
+	return nil
 }
 
 func (tx *FenceTx) Rollback() error {
